@@ -187,7 +187,7 @@ def _zw_job(job):
         try:
             with contextlib.redirect_stdout(io.StringIO()):
                 r = my_math.znormWindowFilter([float(x) for x in v["xs"]], a["window"], a["pad"], a["filterZero"])
-            ret = [int(round(x * 100)) for x in r]
+            ret = [int(max(-1000000, min(1000000, round(x * 100)))) for x in r]
         except Exception as ex:  # noqa
             st = type(ex).__name__
         out.append({"id": start + i, "fam": "series", "op": "zwindow", "xs": v["xs"], "args": a, "st": st, "ret": ret,
